@@ -161,4 +161,15 @@ def obligations(tier, seed):
         ob["timeout"] = 900 if thorough else 150
         ob["engine"] = "zsym"
         obs.append(ob)
+    # personal absence steps of a facility and of a worker are saved settings: they must still apply after the pause, in the new project
+    for ob in [ob for ob in profiles.p_facility(thorough, H=H) if "fsk=all" in ob["name"] and "solof=0" in ob["name"] and "fixf=None" in ob["name"]][:2]:
+        ob = dict(ob)
+        narrow = {"f11": (1, 1), "a1": (-1, 2), "fa0": (0, 3), "s00": (1, 1), "f00": (1, 2), "w0": (2, 4), "w1": (1, 1), "cap": (2, 2)}
+        ob["params"] = [[n, narrow[n][0], narrow[n][1]] if n in narrow else [n, lo, hi] for n, lo, hi in ob["params"]]
+        ob["harness"] = "through_json"
+        ob["name"] = "json/personal-absence/" + ob["name"]
+        ob["params"] = ob["params"] + [["k", 0, 4]]
+        ob["timeout"] = 900 if thorough else 150
+        ob["engine"] = "zsym"
+        obs.append(ob)
     return obs
